@@ -74,19 +74,23 @@ def check_traversal(report):
                          and "add_to_address_allowlist(" in ast.unparse(n) for n in ast.walk(fn))
             r1.check(direct or looped, p, fn.lineno, f"{ci.name}.add_to_address_allowlist does not descend into `{fname}`",
                      f"types reachable through {ci.name}.{fname} would be pruned although a kept RPC still references them")
-        # guards
-        for n in ast.walk(fn):
-            if isinstance(n, ast.If) and "address_allowlist" in ast.unparse(n.test) and "not in" in ast.unparse(n.test):
-                r1.instance(f"{ci.name}: visited-set guard")
-                r1.check(ast.unparse(n.test) == "self.ident not in address_allowlist", p, n.lineno, f"{ci.name}: if {ast.unparse(n.test)}",
-                         "a visited-set test may only be on the node's own identity (added in the same block as its children are walked); testing "
-                         "another object's address skips that object's children whenever the address was added through a different path")
-            # recursion must not be guarded by anything but presence of the child / the allow-list membership of a method
+        # guards: every allow-list membership fact under which something runs must be about the node's OWN identity
+        from .common_rules import stmt_guards
+        sg = stmt_guards(fn)
+        facts = {g for guards, _ in sg for g in guards if g[0] != "for" and "address_allowlist" in g[0]}
+        for g in sorted(facts):
+            r1.instance(f"{ci.name}: visited-set guard")
+            r1.check(g[0] == "self.ident in address_allowlist", p, fn.lineno, f"{ci.name}: guard {'' if g[1] else 'not '}{g[0]}",
+                     "a visited-set test may only be on the node's own identity (added in the same block as its children are walked); testing "
+                     "another object's address skips that object's children whenever the address was added through a different path")
         if ci.name == "MessageType":
-            g = [n for n in fn.body if isinstance(n, ast.If) and ast.unparse(n.test) == "self.ident not in address_allowlist"]
+            own_g = ("self.ident in address_allowlist", False)
+            adds = [(i, guards) for i, (guards, st) in enumerate(sg) if ast.unparse(st) == "address_allowlist.add(self.ident)"]
+            walks = [(i, guards) for i, (guards, st) in enumerate(sg) if "add_to_address_allowlist(" in ast.unparse(st)]
             r1.instance("MessageType termination guard")
-            ok = len(g) == 1 and ast.unparse(g[0].body[0]) == "address_allowlist.add(self.ident)"
-            r1.check(ok, p, fn.lineno, "MessageType guard", "recursive messages terminate because a message adds itself before walking its children")
+            ok = len(adds) == 1 and own_g in adds[0][1] and bool(walks) and all(own_g in g_ and i > adds[0][0] for i, g_ in walks)
+            r1.check(ok, p, fn.lineno, "MessageType guard", "recursive messages terminate because a message adds itself before walking its children, "
+                     "and does either only when it was not in the allow-list yet")
     # Field: resource reference
     f = holders["gapic.schema.wrappers.Field"].members["add_to_address_allowlist"].node
     r1.instance("Field.resource_reference")
@@ -151,26 +155,39 @@ def check_selection_and_internal(report):
     r3 = report.rule("C16.3", "a method is kept iff its fully-qualified name is listed", floor=1)
     m = pm()
     sv = m.func("gapic.schema.wrappers.Service.add_to_address_allowlist")
-    loops = [n for n in sv.node.body if isinstance(n, ast.For) and ast.unparse(n.iter) == "self.methods.values()"]
+    from .common_rules import stmt_guards
+    walks = [(guards, st) for guards, st in stmt_guards(sv.node) if "add_to_address_allowlist(" in ast.unparse(st)
+             and any(g[0] == "for" and g[2] == "self.methods.values()" for g in guards)]
     r3.instance("Service method selection")
-    ok = len(loops) == 1 and len(loops[0].body) == 1 and isinstance(loops[0].body[0], ast.If) and \
-        pmatch("_M_.ident.proto in method_allowlist", loops[0].body[0].test) is not None
+    ok = len(walks) == 1
+    if ok:
+        guards, st = walks[0]
+        loop = [g for g in guards if g[0] == "for" and g[2] == "self.methods.values()"][0]
+        conds = [g for g in guards if g[0] != "for"]
+        ok = conds == [(f"{loop[1]}.ident.proto in method_allowlist", True)] and ast.unparse(st).startswith(f"{loop[1]}.add_to_address_allowlist(")
     r3.check(ok, sv.module.path, sv.node.lineno, "if method.ident.proto in method_allowlist", "exactly the listed RPCs are walked")
     r4 = report.rule("C16.4", "internal mode: is_internal flipped for unlisted methods only; `_` / `Base` prefixes exactly under is_internal", floor=4)
+    from ..pymodel import nmatch, nreturn, decision_leaves, string_properties
     wm = m.func("gapic.schema.wrappers.Method.with_internal_methods")
-    first = [s for s in wm.node.body if isinstance(s, ast.If)]
     r4.instance("Method.with_internal_methods")
-    ok = len(first) == 1 and pmatch("self.ident.proto in public_methods", first[0].test) is not None and ast.unparse(first[0].body[0]) == "return self"
-    rets = [n for n in ast.walk(wm.node) if isinstance(n, ast.Return) and isinstance(n.value, ast.Call)]
-    ok = ok and len(rets) == 1 and "is_internal=True" in ast.unparse(rets[0].value)
+    e = nreturn(m, wm, keep={"replace"})
+    leaves = decision_leaves(e) if e is not None else []
+    listed = [v for c, v in leaves if ("self.ident.proto in public_methods", True) in c]
+    other = [v for c, v in leaves if ("self.ident.proto in public_methods", False) in c]
+    ok = len(leaves) == 2 and len(listed) == 1 and ast.unparse(listed[0]) == "self" and len(other) == 1 and isinstance(other[0], ast.Call) \
+        and any(k.arg == "is_internal" and ast.unparse(k.value) == "True" for k in other[0].keywords)
     r4.check(ok, wm.module.path, wm.node.lineno, "Method.with_internal_methods", "listed methods are returned unchanged; all others get is_internal=True")
     cmn = m.func("gapic.schema.wrappers.Method.client_method_name")
     r4.instance("client_method_name")
-    r4.check(find_match("make_private(_N_) if self.is_internal else _N_", cmn.node)[0] is not None, cmn.module.path, cmn.node.lineno, "client_method_name", "leading underscore exactly for internal methods")
+    r4.check(nmatch(m, "make_private(_ANYN_) if self.is_internal else _ANYN_", cmn, keep={"make_private"}) is not None, cmn.module.path, cmn.node.lineno,
+             "client_method_name", "leading underscore exactly for internal methods")
+    sp = string_properties(m)
     for prop in ("client_name", "async_client_name"):
         f = m.func(f"gapic.schema.wrappers.Service.{prop}")
         r4.instance(prop)
-        r4.check(find_match("('Base' if self.is_internal else '') + self.name + _ANYS_", f.node)[0] is not None, f.module.path, f.node.lineno, prop, "`Base` prefix exactly for internal services")
+        parts = sp.get(prop, (None,))[0]
+        r4.check(bool(parts) and parts[0] == ("cond", "is_internal", "Base", "") and parts[1] == ("attr", "name"), f.module.path, f.node.lineno, prop,
+                 "`Base` prefix exactly for internal services")
     si = m.func("gapic.schema.wrappers.Service.is_internal")
     r4.instance("Service.is_internal")
     r4.check(find_match("any((_M_.is_internal for _M_ in self.methods.values()))", si.node)[0] is not None, si.module.path, si.node.lineno, "Service.is_internal", "a service is internal iff one of its methods is")
